@@ -76,10 +76,16 @@ impl CompoundSelector {
             Opt::Any => vec![],
             Opt::None => return Opt::None,
         };
-        Opt::Some(Self {
+        let mut result = Self {
             pseudo,
             ..self.clone()
-        })
+        };
+        if result.is_empty() && !self.is_empty() {
+            // Only match-anything pseudos (like `:not(%placeholder)`)
+            // were removed; what remains still matches anything.
+            result.element = Some(ElemType::any());
+        }
+        Opt::Some(result)
     }
 
     pub(super) fn dedup(&mut self, original: &Self) {
